@@ -47,7 +47,7 @@ type Content struct {
 }
 
 // SymbolID: "c"^k ++ base -> 1000*k + base id.
-var baseSymbols = map[string]int64{"rowan": 0, "eth": 1, "usdc": 2, "dash": 3, "stake": 4, "comp": 5, "ibc/FEEDFACE": 6, "ibc/feedface": 7}
+var baseSymbols = map[string]int64{"rowan": 0, "eth": 1, "usdc": 2, "dash": 3, "stake": 4, "comp": 5, "ibc/FEEDFACE": 6, "ibc/feedface": 7, "USDT": 8, "usdt": 9}
 
 func SymbolID(s string) int64 {
 	k := int64(0)
@@ -185,7 +185,7 @@ type BridgeState struct {
 	Accounts   []int64
 }
 
-var bridgeDenoms = []string{"rowan", "eth", "usdc", "dash", "stake", "comp", "ceth", "cusdc", "cdash", "crowan", "cstake", "ccomp", "cceth", "ccusdc", "cccomp", "ccceth", "ibc/FEEDFACE", "ibc/feedface", "cibc/FEEDFACE", "cibc/feedface"}
+var bridgeDenoms = []string{"rowan", "eth", "usdc", "dash", "stake", "comp", "ceth", "cusdc", "cdash", "crowan", "cstake", "ccomp", "cceth", "ccusdc", "cccomp", "ccceth", "ibc/FEEDFACE", "ibc/feedface", "cibc/FEEDFACE", "cibc/feedface", "USDT", "usdt", "cUSDT", "cusdt", "ccUSDT"}
 
 func (e *BridgeEnv) contentID(js string) int64 {
 	if id, ok := e.ContentID[js]; ok {
